@@ -152,6 +152,260 @@ def venom_cases(rnd, n):
     return exprs, meta
 
 
+def venom_path_cases(rnd, n):
+    """whole access paths through the REAL venom lowering (recursive Expr.lower with the real _lower_array_subscript /
+    _lower_struct_field at every level); SSA names canonicalised per level k: base, <k>p1 (index), <k>ld0 (length), <k>t<i>"""
+    import types
+    from unittest import mock
+    import vyper.codegen_venom.expr as VE
+    from vyper import ast as vy_ast
+    from vyper.semantics.data_locations import DataLocation as DL
+    from vyper.semantics.types import IntegerT
+    from vyper.venom.basicblock import IRLiteral, IRVariable
+    from vyper.venom.builder import VenomBuilder
+    from vyper.venom.context import IRContext
+    from .c03_export import OP1, V_OP2, V_OP3
+    from .c04_export import PURE_DROP, zl_
+    ns = types.SimpleNamespace
+    real_sub = VE.Expr._lower_array_subscript
+    real_fld = VE.Expr._lower_struct_field
+    locs = [(DL.MEMORY, 32), (DL.STORAGE, 1), (DL.TRANSIENT, 1), (DL.CALLDATA, 32), (DL.CODE, 32)]
+    exprs, meta = [], []
+    with warnings.catch_warnings():
+        warnings.simplefilter("ignore")
+        with settings_ctx():
+            for idx in range(n):
+                t, path, signs = gen_case(rnd, 10000 + idx)
+                if not path:
+                    continue
+                loc, ws = locs[idx % len(locs)]
+                ictx = IRContext()
+                fn = ictx.create_function("probe")
+                b = VenomBuilder(ictx, fn)
+                base = b.param()
+                idxp = {k: b.param() for k, st in enumerate(path) if st[0] == "idx"}
+                bb = b.current_block
+                n0 = len(bb.instructions)
+                info, ends = {}, {}
+                # AST chain: level k node wraps level k-1 node
+                cur_t, inner = t, ns(_metadata={"type": vy_type(t)})
+                info[id(inner)] = ("base", -1)
+                nodes = []
+                for k, st in enumerate(path):
+                    if st[0] == "field":
+                        node = vy_ast.Attribute.__new__(vy_ast.Attribute)
+                        object.__setattr__(node, "value", inner)
+                        object.__setattr__(node, "attr", st[2])
+                        cur_t = cur_t.members[st[1]][1]
+                    else:
+                        node = vy_ast.Subscript.__new__(vy_ast.Subscript)
+                        object.__setattr__(node, "value", inner)
+                        sl = ns(_metadata={"type": IntegerT(st[1], st[2])})
+                        info[id(sl)] = ("index", k)
+                        object.__setattr__(node, "slice", sl)
+                        cur_t = cur_t.t
+                    object.__setattr__(node, "_metadata", {"type": vy_type(cur_t)})
+                    info[id(node)] = (st[0], k)
+                    nodes.append(node)
+                    inner = node
+                fctx = ns(builder=b, load_word=lambda addr, l: b.load(addr, l))
+
+                class FakeExpr:
+                    def __init__(s_, nd, c_):
+                        s_.node, s_.ctx, s_.builder = nd, fctx, b
+
+                    def _make_ptr_value(s_, p_, l_, ty_):
+                        return ns(operand=p_, location=l_)
+
+                    def lower(s_):
+                        kind, k = info[id(s_.node)]
+                        if kind == "base":
+                            return ns(operand=base, location=loc)
+                        r = real_sub(s_, True) if kind == "idx" else real_fld(s_)
+                        ends[k] = len(bb.instructions)
+                        return r
+
+                    def lower_value(s_):
+                        kind, k = info[id(s_.node)]
+                        assert kind == "index"
+                        return idxp[k]
+                with mock.patch.object(VE, "Expr", FakeExpr):
+                    res = FakeExpr(nodes[-1], None).lower().operand
+                if b.current_block is not bb:
+                    raise ExportError("venom path lowering is not straight-line")
+                names = {base.name: "base"}
+                for k, p_ in idxp.items():
+                    names[p_.name] = f"{k}p1"
+
+                def op(o):
+                    if isinstance(o, IRLiteral):
+                        return f"(VLit {zl_(o.value)})"
+                    if isinstance(o, IRVariable) and o.name in names:
+                        return f'(VVar "{names[o.name]}")'
+                    raise ExportError(f"unsupported / unbound venom operand {o!r}")
+                terms = []
+                start = n0
+                for k in range(len(path)):
+                    nt = 0
+                    for ins in bb.instructions[start:ends[k]]:
+                        outs_ = ins.get_outputs()
+                        opc = ins.opcode
+                        if opc in PURE_DROP:
+                            names[outs_[0].name] = f"{k}ld0"
+                            continue
+                        ops = [op(o) for o in ins.operands]
+                        if opc == "assert" and len(ops) == 1:
+                            terms.append(f"(VAssert {ops[0]})")
+                            continue
+                        if len(outs_) != 1:
+                            raise ExportError(f"venom instruction outside the straight-line subset: {ins}")
+                        names[outs_[0].name] = f"{k}t{nt}"
+                        out = f'"{k}t{nt}"'
+                        nt += 1
+                        if opc in OP1 and len(ops) == 1:
+                            terms.append(f"(V1 {out} {OP1[opc]} {ops[0]})")
+                        elif opc in V_OP2 and len(ops) == 2:
+                            terms.append(f"(V2 {out} {V_OP2[opc]} {ops[0]} {ops[1]})")
+                        elif opc in V_OP3 and len(ops) == 3:
+                            terms.append(f"(V3 {out} {V_OP3[opc]} {ops[0]} {ops[1]} {ops[2]})")
+                        elif opc == "assign" and len(ops) == 1:
+                            terms.append(f"(VAssign {out} {ops[0]})")
+                        else:
+                            raise ExportError(f"venom instruction outside the straight-line subset: {ins}")
+                    start = ends[k]
+                fin = names[res.name]
+                steps = "; ".join(f"SField {st[1]}%nat" if st[0] == "field" else "SIdx 0" for st in path)
+                sg = "[" + "; ".join("true" if s_ else "false" for s_ in signs) + "]"
+                exprs.append(f'[if match vaddr_path {ws} {sg} 0%nat {t.coq()} [{steps}] "base"%string with '
+                             f'Some (q, fin) => vlist_eqb [{"; ".join(terms)}] q && String.eqb fin "{fin}"%string | None => false end then 1 else 0]')
+                meta.append({"type": t.src(), "location": loc.name, "path": [list(map(str, s_)) for s_ in path], "observed": "; ".join(terms)[:1200]})
+    return exprs, meta
+
+
+def venom_map_cases():
+    """REAL Expr._lower_mapping_subscript (+ _lower_keccak256_key) for word keys nested 1..3 deep and for Bytes / String
+    keys, exported as C10/VMapTemplates.v hinstr terms (operands in EVM order; outputs numbered t0.. in order)"""
+    import types
+    from unittest import mock
+    import vyper.codegen_venom.expr as VE
+    from vyper import ast as vy_ast
+    from vyper.codegen_venom.context import VenomCodegenContext as VCC
+    from vyper.semantics.data_locations import DataLocation as DL
+    from vyper.semantics.types import AddressT, BytesM_T, BytesT, HashMapT, IntegerT, StringT
+    from vyper.venom.basicblock import IRLiteral, IRVariable
+    from vyper.venom.builder import VenomBuilder
+    from vyper.venom.context import IRContext
+    ns = types.SimpleNamespace
+    U = IntegerT(False, 256)
+    real_map = VE.Expr._lower_mapping_subscript
+    real_kk = VE.Expr._lower_keccak256_key
+    exprs, meta = [], []
+    word_keys = [U, IntegerT(True, 128), AddressT(), BytesM_T(32), BytesM_T(4), IntegerT(False, 8)]
+    cases = []
+    for loc in (DL.STORAGE, DL.TRANSIENT):
+        for kt in word_keys:
+            cases.append((loc, [kt]))
+        cases.append((loc, [U, AddressT()]))
+        cases.append((loc, [IntegerT(True, 128), BytesM_T(32), U]))
+        for kt in (BytesT(10), StringT(7), BytesT(100)):
+            cases.append((loc, [kt]))
+    with warnings.catch_warnings():
+        warnings.simplefilter("ignore")
+        with settings_ctx():
+            for loc, kts in cases:
+                ictx = IRContext()
+                fn = ictx.create_function("probe")
+                b = VenomBuilder(ictx, fn)
+                base = b.param()
+                keys = [b.param() for _ in kts]
+                bb = b.current_block
+                n0 = len(bb.instructions)
+                fctx = ns(builder=b, _ALLOCATION_LIMIT=VCC._ALLOCATION_LIMIT)
+                for m_ in ("allocate_buffer", "ptr_store", "add_offset", "store_word", "ensure_bytestring_in_memory", "bytes_data_ptr",
+                           "bytestring_length", "_with_byte_offset", "new_temporary_value", "load_word"):
+                    setattr(fctx, m_, types.MethodType(getattr(VCC, m_), fctx))
+                vt = U
+                for kt in reversed(kts):
+                    vt = HashMapT(kt, vt)
+                info = {}
+                inner = ns(_metadata={"type": vt})
+                info[id(inner)] = ("base", -1)
+                cur = vt
+                for j, kt in enumerate(kts):
+                    node = vy_ast.Subscript.__new__(vy_ast.Subscript)
+                    object.__setattr__(node, "value", inner)
+                    sl = ns(_metadata={"type": kt})
+                    info[id(sl)] = ("key", j)
+                    object.__setattr__(node, "slice", sl)
+                    cur = cur.value_type
+                    object.__setattr__(node, "_metadata", {"type": cur})
+                    info[id(node)] = ("map", j)
+                    inner = node
+
+                class FakeExpr:
+                    def __init__(s_, nd, c_):
+                        s_.node, s_.ctx, s_.builder = nd, fctx, b
+
+                    def lower(s_):
+                        kind, j = info[id(s_.node)]
+                        if kind == "base":
+                            return ns(operand=base, location=loc)
+                        if kind == "key":
+                            return ns(operand=keys[j], location=DL.MEMORY)
+                        return real_map(s_)
+
+                    def lower_value(s_):
+                        kind, j = info[id(s_.node)]
+                        assert kind == "key"
+                        return keys[j]
+                    _lower_keccak256_key = real_kk
+                with mock.patch.object(VE, "Expr", FakeExpr):
+                    res = FakeExpr(inner, None).lower().operand
+                names = {base.name: "p0"}
+                for j, k_ in enumerate(keys):
+                    names[k_.name] = f"k{j}"
+
+                def op(o):
+                    if isinstance(o, IRLiteral):
+                        return f"(VLit {hex(o.value)})"
+                    if isinstance(o, IRVariable) and o.name in names:
+                        return f'(VVar "{names[o.name]}")'
+                    raise ExportError(f"unsupported / unbound venom operand {o!r}")
+                terms, nt = [], 0
+                for ins in bb.instructions[n0:]:
+                    ops = [op(o) for o in reversed(ins.operands)]      # EVM order
+                    outs_ = ins.get_outputs()
+                    o_ = None
+                    if outs_:
+                        names[outs_[0].name] = f"t{nt}"
+                        o_ = f'"t{nt}"'
+                        nt += 1
+                    opc = ins.opcode
+                    if opc == "alloca" and isinstance(ins.operands[0], IRLiteral):
+                        terms.append(f"(HAlloca {o_} {ins.operands[0].value})")
+                    elif opc == "mstore" and len(ops) == 2:
+                        terms.append(f"(HMstore {ops[0]} {ops[1]})")
+                    elif opc == "mload" and len(ops) == 1:
+                        terms.append(f"(HMload {o_} {ops[0]})")
+                    elif opc == "add" and len(ops) == 2:
+                        terms.append(f"(HAdd {o_} {ops[0]} {ops[1]})")
+                    elif opc == "sha3" and len(ops) == 2 and isinstance(ins.operands[0], IRLiteral) and ins.operands[0].value == 64:
+                        terms.append(f"(HSha3_64 {o_} {ops[0]})")
+                    elif opc == "sha3" and len(ops) == 2:
+                        terms.append(f"(HSha3B {o_} {ops[0]} {ops[1]})")
+                    else:
+                        raise ExportError(f"venom instruction outside the mapping template language: {ins}")
+                obs = "[" + "; ".join(terms) + "]"
+                resn = names[res.name]
+                if any(isinstance(kt, (BytesT, StringT)) for kt in kts):
+                    tpl = "map_bytes_key"
+                else:
+                    tpl = f'(map_chain 0%nat (VVar "p0") {len(kts)}%nat)'
+                exprs.append(f'[if hlist_eqb {obs} (fst {tpl}) && vop_eqb (VVar "{resn}") (snd {tpl}) then 1 else 0]')
+                meta.append({"location": loc.name, "key_types": [str(k) for k in kts], "observed": obs[:1200]})
+    return exprs, meta
+
+
 def run(ctx, model_ok, n):
     from vyper.codegen.core import get_element_ptr
     from vyper.codegen.ir_node import IRnode
@@ -226,6 +480,25 @@ def run(ctx, model_ok, n):
                 found = True
                 break
     ctx.corr["venom_address_steps"] = len(vexprs)
+    pexprs, pmeta = venom_path_cases(rnd, max(40, n // 2))
+    if model_ok and pexprs and not found:
+        outs = coqrun.eval_zlists("From Verif Require Import C03.LIR C03.VSL C10.Layout C10.VAddrPath.\n", pexprs, "c10vpath",
+                                  shard=max(8, len(pexprs) // 4 + 1))
+        for m, o in zip(pmeta, outs):
+            if o != [1]:
+                ctx.violation("correspondence-broken", "venom multi-step address code differs from the composed template VAddrPath.vaddr_path", m)
+                found = True
+                break
+    ctx.corr["venom_address_paths"] = len(pexprs)
+    mexprs, mmeta = venom_map_cases()
+    if model_ok and mexprs and not found:
+        outs = coqrun.eval_zlists("From Verif Require Import C03.LIR C03.VSL C10.VMapTemplates.\nOpen Scope string_scope.\n", mexprs, "c10vmap", shard=16)
+        for m, o in zip(mmeta, outs):
+            if o != [1]:
+                ctx.violation("correspondence-broken", "venom HashMap lowering differs from the template VMapTemplates (key buffer + sha3)", m)
+                found = True
+                break
+    ctx.corr["venom_mapping_templates"] = len(mexprs)
     if model_ok and exprs and not found:
         outs = coqrun.eval_zlists("From Verif Require Import C03.LIR C10.Layout C10.AddrTemplates.\n", exprs, "c10addr",
                                   shard=max(8, len(exprs) // 4 + 1))
